@@ -794,4 +794,149 @@ example : OnLattice 0 1 (some 1) [((0 : Rat), (1 : Int)), (1, 2)] := ⟨0, 1, by
 example : OnLattice (1/4) (1/2) none [((-3/4 : Rat), (1 : Int)), (-1/4, 2), (1/4, 3)] :=
   ⟨-2, 2, by decide +kernel, by decide +kernel⟩
 
+/-! ## positional calls and sessions
+
+  "Closed or open at each end as asked" also holds for a caller who passes the optional arguments
+  positionally in the documented order: the order of the parameters is part of the contract.  The
+  model's order (`sigCropDim`, …) is compared with the signature of the current source on every
+  run (`sigOK model_table extracted`, Tie 1); the theorems below say what that obligation buys. -/
+
+/-- Python's binding, for any signature whose leading parameters are the documented ones: passing
+    the first `k` optional arguments positionally (in the documented order) and the others by
+    keyword gives, for every `k`, the binding of the all-keyword call — every documented parameter
+    receives the value meant for it. -/
+theorem C17_positional_binding {β} (doc current : List String) (skip : Nat) (vals : List β) (k : Nat)
+    (hsig : sigOK doc current = true) (hskip : skip ≤ doc.length)
+    (hlen : vals.length = (doc.drop skip).length) (hk : k ≤ vals.length) :
+    bindArgs (current.drop skip) (vals.take k) (((doc.drop skip).zip vals).drop k)
+      = some ((doc.drop skip).zip vals) := by
+  obtain ⟨t, rfl⟩ : ∃ t, current = doc ++ t := by
+    obtain ⟨t, ht⟩ := List.isPrefixOf_iff_prefix.mp hsig
+    exact ⟨t, ht.symm⟩
+  rw [List.drop_append_of_le_length hskip]
+  generalize doc.drop skip = d at *
+  have hkd : k ≤ d.length := by omega
+  have hlt : (vals.take k).length = k := by simp [List.length_take]; omega
+  unfold bindArgs
+  rw [hlt]
+  have c1 : ¬ (d ++ t).length < k := by simp; omega
+  have c2 : (((d.zip vals).drop k).any fun p => !((d ++ t).drop k).contains p.1) = false := by
+    rw [List.any_eq_false]
+    intro p hp
+    rw [List.zip, List.drop_zipWith] at hp
+    have := (List.of_mem_zip hp).1
+    simp
+    rw [List.drop_append_of_le_length hkd]
+    exact List.mem_append_left _ this
+  rw [if_neg c1, c2]
+  simp only [Bool.false_eq_true, if_false]
+  rw [zip_take_prefix d t vals k hk hkd, List.take_append_drop]
+
+/-- `crop_dim(arr, dim, start, stop, right_closed, left_closed, eps)`: with any current signature that
+    passes the Tie-1 obligation, each way of calling it in the documented order (0 … 5 optional
+    arguments positional, the rest by keyword) binds `right_closed` to the fifth and `left_closed` to
+    the sixth argument -/
+theorem C17_crop_positional {β} (current : List String) (h : sigOK sigCropDim current = true)
+    (start stop rc lc eps : β) (k : Nat) (hk : k ≤ 5) :
+    bindArgs (current.drop 2) ([start, stop, rc, lc, eps].take k)
+        ([("start", start), ("stop", stop), ("right_closed", rc), ("left_closed", lc), ("eps", eps)].drop k)
+      = some [("start", start), ("stop", stop), ("right_closed", rc), ("left_closed", lc), ("eps", eps)] :=
+  C17_positional_binding sigCropDim current 2 [start, stop, rc, lc, eps] k h (by decide) rfl (by simpa using hk)
+
+/-- `extend_dim(arr, dim, start, stop, fill_value, eps, left_closed, right_closed)` -/
+theorem C17_extend_positional {β} (current : List String) (h : sigOK sigExtendDim current = true)
+    (start stop fill eps lc rc : β) (k : Nat) (hk : k ≤ 6) :
+    bindArgs (current.drop 2) ([start, stop, fill, eps, lc, rc].take k)
+        ([("start", start), ("stop", stop), ("fill_value", fill), ("eps", eps), ("left_closed", lc),
+          ("right_closed", rc)].drop k)
+      = some [("start", start), ("stop", stop), ("fill_value", fill), ("eps", eps), ("left_closed", lc),
+          ("right_closed", rc)] :=
+  C17_positional_binding sigExtendDim current 2 [start, stop, fill, eps, lc, rc] k h (by decide) rfl
+    (by simpa using hk)
+
+/-- `adjust_dim_width` / `extend_dim_width (array, dim, width, fill_value, position)` and
+    `crop_dim_width(array, dim, width, position)` -/
+theorem C17_width_positional {β} (current : List String) (w fill pos : β) (k : Nat) (hk : k ≤ 3) :
+    (sigOK sigAdjustDimWidth current = true ∨ sigOK sigExtendDimWidth current = true →
+      bindArgs (current.drop 2) ([w, fill, pos].take k)
+          ([("width", w), ("fill_value", fill), ("position", pos)].drop k)
+        = some [("width", w), ("fill_value", fill), ("position", pos)]) ∧
+    (sigOK sigCropDimWidth current = true → k ≤ 2 →
+      bindArgs (current.drop 2) ([w, pos].take k) ([("width", w), ("position", pos)].drop k)
+        = some [("width", w), ("position", pos)]) := by
+  refine ⟨fun h => ?_, fun h hk2 => ?_⟩
+  · have h' : sigOK sigAdjustDimWidth current = true := by
+      rcases h with h | h
+      · exact h
+      · exact h
+    exact C17_positional_binding sigAdjustDimWidth current 2 [w, fill, pos] k h' (by decide) rfl (by simpa using hk)
+  · exact C17_positional_binding sigCropDimWidth current 2 [w, pos] k h (by decide) rfl (by simpa using hk2)
+
+/-- `get_dim_step(arr, dim, rtol, atol, check_tolerance, estimate_step)` and
+    `estimate_dim_step(data, rtol, atol, check_tolerance)` -/
+theorem C17_step_positional {β} (current : List String) (rtol atol chk est : β) (k : Nat) :
+    (sigOK sigGetDimStep current = true → k ≤ 4 →
+      bindArgs (current.drop 2) ([rtol, atol, chk, est].take k)
+          ([("rtol", rtol), ("atol", atol), ("check_tolerance", chk), ("estimate_step", est)].drop k)
+        = some [("rtol", rtol), ("atol", atol), ("check_tolerance", chk), ("estimate_step", est)]) ∧
+    (sigOK sigEstimateDimStep current = true → k ≤ 3 →
+      bindArgs (current.drop 1) ([rtol, atol, chk].take k)
+          ([("rtol", rtol), ("atol", atol), ("check_tolerance", chk)].drop k)
+        = some [("rtol", rtol), ("atol", atol), ("check_tolerance", chk)]) :=
+  ⟨fun h hk => C17_positional_binding sigGetDimStep current 2 [rtol, atol, chk, est] k h (by decide) rfl
+      (by simpa using hk),
+   fun h hk => C17_positional_binding sigEstimateDimStep current 1 [rtol, atol, chk] k h (by decide) rfl
+      (by simpa using hk)⟩
+
+-- what is at stake: with the two flags declared in the other order (left_closed, right_closed), the documented
+-- call crop_dim(arr, dim, 2, 7, True) - right end closed - closes the *left* end instead, and on the axis 0..9
+-- returns [2..6] instead of [2..7]
+example : bindArgs ["start", "stop", "left_closed", "right_closed", "eps"] ([2, 7, 1] : List Nat) []
+    = some [("start", 2), ("stop", 7), ("left_closed", 1)] := by decide
+example : bindArgs (sigCropDim.drop 2) ([2, 7, 1] : List Nat) []
+    = some [("start", 2), ("stop", 7), ("right_closed", 1)] := by decide
+example : cropDim ((List.range 10).map fun (i : Nat) => ((i : Rat), (i : Int))) (some 2) (some 7) true true (1/1024)
+      = .ok ((List.range' 2 6).map fun (i : Nat) => ((i : Rat), (i : Int))) ∧
+    cropDim ((List.range 10).map fun (i : Nat) => ((i : Rat), (i : Int))) (some 2) (some 7) true false (1/1024)
+      = .ok ((List.range' 2 5).map fun (i : Nat) => ((i : Rat), (i : Int))) := by decide +kernel
+-- too many positional arguments / a parameter given twice / an unknown keyword: TypeError
+example : bindArgs ["a", "b"] ([1, 2, 3] : List Nat) [] = none := by decide
+example : bindArgs ["a", "b"] ([1] : List Nat) [("a", 2)] = none := by decide
+example : bindArgs ["a", "b"] ([1] : List Nat) [("c", 2)] = none := by decide
+example : sigOK sigCropDim (sigCropDim ++ ["copy"]) = true ∧
+    sigOK sigCropDim ["arr", "dim", "start", "stop", "left_closed", "right_closed", "eps"] = false := by decide
+
+/-- a session — consecutive calls in one process — is judged call by call: whatever was called
+    before or after, call `k` returns what the operation returns for the array (and step attribute)
+    it is given at that moment -/
+theorem C17_session_pointwise {α} (pre post : List (Call α)) (c : Call α) :
+    (runSession (pre ++ c :: post))[pre.length]? = some (applyStep c.attr c.arr c.step) := by
+  simp [runSession]
+
+/-- the same call made again later in a session (after calls with the same array and other
+    options, the same axis and other data, …) returns the same result; and the single calls are
+    the single-call models -/
+theorem C17_session_replay {α} (pre mid post : List (Call α)) (c : Call α) :
+    (runSession (pre ++ c :: (mid ++ c :: post)))[pre.length + 1 + mid.length]?
+        = (runSession (pre ++ c :: (mid ++ c :: post)))[pre.length]? ∧
+    (∀ attr (a : Samples α) start stop lc rc eps,
+        applyStep attr a (.crop start stop lc rc eps) = cropDim a start stop lc rc eps) ∧
+    (∀ attr (a : Samples α) start stop fill eps lc rc,
+        applyStep attr a (.extend start stop fill eps lc rc) = extendDim a attr start stop fill eps lc rc) ∧
+    (∀ attr (a : Samples α) w fill pos,
+        applyStep attr a (.width w fill pos) = adjustWidth a attr w fill pos) := by
+  refine ⟨?_, fun _ _ _ _ _ _ _ => rfl, fun _ _ _ _ _ _ _ _ => rfl, fun _ _ _ _ _ => rfl⟩
+  have h1 := C17_session_pointwise pre (mid ++ c :: post) c
+  have h2 := C17_session_pointwise (pre ++ c :: mid) post c
+  have e : (pre ++ c :: mid) ++ c :: post = pre ++ c :: (mid ++ c :: post) := by simp
+  have l : (pre ++ c :: mid).length = pre.length + 1 + mid.length := by simp; omega
+  rw [e, l] at h2
+  rw [h1, h2]
+
+example : runSession [⟨some 1, [((0 : Rat), (1 : Int)), (1, 2)], .width 3 0 (some .start)⟩,
+      ⟨some 1, [((0 : Rat), (5 : Int)), (1, 6)], .width 3 9 (some .end)⟩,
+      ⟨some 1, [((0 : Rat), (1 : Int)), (1, 2)], .width 3 0 (some .start)⟩]
+    = [.ok [(0, 1), (1, 2), (2, 0)], .ok [(-1, 9), (0, 5), (1, 6)], .ok [(0, 1), (1, 2), (2, 0)]] := by decide +kernel
+
+
 end SE.Proofs.C17
